@@ -17,4 +17,4 @@ require (
 	golang.org/x/sys v0.24.0 // indirect
 )
 
-replace src.elv.sh => /tmp/vseed-C30b-1388
+replace src.elv.sh => /tmp/vseed-C31b-11958
